@@ -183,3 +183,82 @@ def ob_f_shared(ob):
     """the temperature and kinetic energy of a molecule must not depend on the padding of its batch row"""
     ob.note("this obligation is the one registered as C08.d; it is also decided here because the temperature and kinetic energy of a molecule must not depend on the padding of its batch row")
     _C08_mod.ob_d(ob)
+
+
+def _dmap(nsh, nheavy, nh):
+    """orbital index map of the 9-slot-per-atom (PM6) layout: packed index -> padded index"""
+    m = list(range(9 * nsh))
+    m += [9 * nsh + 9 * a + k for a in range(nheavy) for k in range(4)]
+    m += [9 * nsh + 9 * nheavy + 9 * h for h in range(nh)]
+    return m
+
+
+def replay_packd(nsh, nheavy, nh):
+    from seqm.seqm_functions.packd import packd, unpackd
+
+    nmol = len(nsh)
+    size = 9 * max(a + b + c for a, b, c in zip(nsh, nheavy, nh))
+    g = torch.Generator().manual_seed(2)
+    X = torch.zeros(nmol, size, size, dtype=torch.float64)
+    worst = 0.0
+    for b in range(nmol):
+        m = _dmap(nsh[b], nheavy[b], nh[b])
+        A = torch.rand(len(m), len(m), generator=g, dtype=torch.float64)
+        for ii, i in enumerate(m):
+            for jj, j in enumerate(m):
+                X[b, i, j] = A[ii, jj]
+        Pk = packd(X[b], nsh[b], nheavy[b], nh[b])
+        worst = max(worst, (Pk[: len(m), : len(m)] - A).abs().max().item())
+        worst = max(worst, (unpackd(Pk, nsh[b], nheavy[b], nh[b], size) - X[b]).abs().max().item())
+    print("replay packd/unpackd nSuperHeavy=%s nHeavy=%s nHydro=%s: max deviation from the orbital map %.3e" % (nsh, nheavy, nh, worst))
+    return worst > 0
+
+
+@obligation(PID, "g", title="PM6 layout: packd moves entry (map(i), map(j)) of the 9-slot-per-atom matrix to (i, j) for every pair of physical orbitals (so symmetric matrices stay symmetric), and unpackd(packd(x)) is the identity on the physical block, for single matrices and heterogeneous batches")
+def ob_g(ob):
+    from seqm.seqm_functions import packd as PD
+
+    ob.encodes(PD.packoned, PD.unpackoned, PD.packd, PD.unpackd)
+    layouts = [([1], [1], [1]), ([0], [2], [1]), ([2], [0], [2]), ([1], [2], [0]), ([1, 0], [1, 2], [2, 1]), ([0, 1], [1, 1], [3, 0]), ([2, 1], [1, 0], [0, 2])]
+    ob.bound("layouts (nSuperHeavy, nHeavy, nHydro) per molecule: %s; every entry of the physical block an independent symbol (no symmetry assumed)" % layouts)
+    for nsh, nheavy, nh in layouts:
+        nmol = len(nsh)
+        size = 9 * max(a + b + c for a, b, c in zip(nsh, nheavy, nh))
+        X = np.full((nmol, size, size), z3.RealVal(0), dtype=object)
+        maps = [_dmap(nsh[b], nheavy[b], nh[b]) for b in range(nmol)]
+        for b in range(nmol):
+            for i in maps[b]:
+                for j in maps[b]:
+                    X[b, i, j] = z3.Real("x%d_%d_%d" % (b, i, j))
+        with symbolic_factories():
+            if nmol == 1:
+                Pk = PD.packd(SymTensor(X[0].copy()), nsh[0], nheavy[0], nh[0])
+                Un = PD.unpackd(Pk, nsh[0], nheavy[0], nh[0], size)
+                Pk, Un = Pk.a[None], Un.a[None]
+            else:
+                Pk = PD.packd(SymTensor(X.copy()), torch.tensor(nsh), torch.tensor(nheavy), torch.tensor(nh))
+                Un = PD.unpackd(Pk, torch.tensor(nsh), torch.tensor(nheavy), torch.tensor(nh), size).a
+                Pk = Pk.a
+        bad = None
+        for b in range(nmol):
+            m = maps[b]
+            for i in range(Pk.shape[1]):
+                for j in range(Pk.shape[2]):
+                    want = X[b, m[i], m[j]] if i < len(m) and j < len(m) else z3.RealVal(0)
+                    if not z3.is_true(z3.simplify(Pk[b, i, j] == want)):
+                        if smt.prove(Pk[b, i, j] == want, [], "g:packed[%d,%d,%d]" % (b, i, j), "lra", 10)[0] == "sat":
+                            bad = bad or ("packed", b, i, j)
+            for k in np.ndindex(X[b].shape):
+                if not z3.is_true(z3.simplify(Un[b][k] == X[b][k])):
+                    if smt.prove(Un[b][k] == X[b][k], [], "g:roundtrip[%d,%s]" % (b, k), "lra", 10)[0] == "sat":
+                        bad = bad or ("roundtrip", b) + k
+        lab = "g:layout %s/%s/%s" % (nsh, nheavy, nh)
+        if bad is None:
+            ob.discharged(lab)
+        elif replay_packd(nsh, nheavy, nh):
+            ob.violation("packd/unpackd do not follow the orbital map for nSuperHeavy=%s nHeavy=%s nHydro=%s (first bad entry %s): the packed Fock matrix is not the physical block (e.g. no longer symmetric), which the 'U'-triangle eigensolver hides but SP2 does not" % (nsh, nheavy, nh, bad), {"module": "harness.C05", "func": "replay_packd", "args": {"nsh": nsh, "nheavy": nheavy, "nh": nh}})
+            return
+        else:
+            raise HarnessError("packd counterexample did not reproduce (%s, %s)" % (lab, bad))
+    x, y = z3.Reals("x y")
+    expect_refuted(ob, x == y, [], "twin: two different matrix entries are distinguishable", "lra")
